@@ -142,6 +142,19 @@ func (w *writer) Delete(rs *segment.RewriteSegment) (*writer, *reader, error) {
 		return nwrt, nil, nil
 	}
 
+	nextOffset, nextTime := w.index.getNext()
+
+	// when the last message is deleted, the next offset is only carried by a new (empty) head segment,
+	// create it before replacing the current one, so the next offset is not lost if we stop in between
+	var nwrt *writer
+	if rs.DeletedMessages[len(rs.DeletedMessages)-1].Offset == w.index.getLastOffset() {
+		wrt, err := openWriter(w.segment.NewAt(nextOffset), w.params, w.version, nextTime)
+		if err != nil {
+			return nil, nil, err
+		}
+		nwrt = wrt
+	}
+
 	nseg := rs.GetNewSegment()
 	if nseg != w.segment {
 		// the starting offset of the new segment is different
@@ -154,11 +167,9 @@ func (w *writer) Delete(rs *segment.RewriteSegment) (*writer, *reader, error) {
 		}
 
 		// first move the replacement
-		nextOffset, nextTime := w.index.getNext()
-		if rs.DeletedMessages[len(rs.DeletedMessages)-1].Offset == w.index.getLastOffset() {
+		if nwrt != nil {
 			rdr := openReader(nseg, w.params, w.version, false)
-			wrt, err := openWriter(w.segment.NewAt(nextOffset), w.params, w.version, nextTime)
-			return wrt, rdr, err
+			return nwrt, rdr, nil
 		} else {
 			wrt, err := openWriter(nseg, w.params, w.version, nextTime)
 			return wrt, nil, err
@@ -169,11 +180,9 @@ func (w *writer) Delete(rs *segment.RewriteSegment) (*writer, *reader, error) {
 		return nil, nil, err
 	}
 
-	nextOffset, nextTime := w.index.getNext()
-	if rs.DeletedMessages[len(rs.DeletedMessages)-1].Offset == w.index.getLastOffset() {
+	if nwrt != nil {
 		rdr := openReader(w.segment, w.params, w.version, false)
-		wrt, err := openWriter(w.segment.NewAt(nextOffset), w.params, w.version, nextTime)
-		return wrt, rdr, err
+		return nwrt, rdr, nil
 	} else {
 		wrt, err := openWriter(w.segment, w.params, w.version, nextTime)
 		return wrt, nil, err
